@@ -65,6 +65,11 @@ def gen_ast(rng):
         if r < 0.26:
             items.append(('const', f'K_{i}', [str(rng.randrange(0, 200))]))
             continue
+        if r < 0.31:
+            # strings and character literals with quote characters, escapes and semicolons inside
+            items.append(('raw', rng.choice(['.cstr "it\'s"', '.cstr "say \\"hi\\" twice"', '.byte \'"\'', '.cstr "semi;colon"',
+                                             '.byte ";"', '.cstr "6\\" nails"', ".byte ';'", '.asciiz "a\\\\"', '.cstr \'x"y\''])))
+            continue
         if r < 0.36:
             vals = [[rng.choice([str(rng.randrange(0, 256)), '$' + format(rng.randrange(0, 256), 'x')])] for _ in range(rng.randrange(1, 5))]
             items.append(('data', rng.choice(['.byte', '.2byte']), vals))
@@ -179,11 +184,14 @@ def render(items, rng, kinds):
             return it[1] + ws('gap-around-equals', ' ', True) + '=' + ws('gap-around-equals', ' ', True) + operand(it[2])
         if k == 'org':
             return '.org' + ws('gap-mnemonic-operand', ' ') + str(it[1])
+        if k == 'raw':
+            return it[1]
         raise ValueError(k)
 
     lines = []
     i = 0
-    comments = ['; plain comment', ';', ';; nop ldi 5', '; "quoted" text: with colon', ';\ttabbed', '; label: .byte 1']
+    comments = ['; plain comment', ';', ';; nop ldi 5', '; "quoted" text: with colon', ';\ttabbed', '; label: .byte 1',
+                '; a.k.a. "sixpenny"', "; it's 5\" long", '; one " only', "; one ' only"]
     while i < len(items):
         it = items[i]
         if 'blank-lines' in K and rng.random() < 0.25:
@@ -192,7 +200,7 @@ def render(items, rng, kinds):
             lines.append(ws('indentation', '') + rng.choice(comments))
         if it[0] == 'label':
             nxt = items[i + 1] if i + 1 < len(items) else None
-            if 'label-placement' in K and nxt is not None and nxt[0] in ('instr', 'data') and rng.random() < 0.6:
+            if 'label-placement' in K and nxt is not None and nxt[0] in ('instr', 'data', 'raw') and rng.random() < 0.6:
                 line = it[1] + ':' + rng.choice([' ', '\t', '  ']) + stmt(nxt)
                 i += 2
             else:
@@ -257,7 +265,7 @@ class C18(core.Check):
     chunk = 900
     required_buckets = {**{'alone:' + k: 3 for k in REWRITES}, 'all-together': 3, 'tab-after-mnemonic': 3,
                         'upper-register-in-brackets': 3, 'upper-register-indexed': 3, 'label-contains-mnemonic': 3,
-                        'joined>=2': 3, 'joined>=3': 3, 'label-in-front-of-local-reference': 3, 'corpus-example': 3}
+                        'joined>=2': 3, 'joined>=3': 3, 'label-in-front-of-local-reference': 3, 'corpus-example': 3, 'quote-in-comment-after-quoted-statement': 3}
 
     def corpus_cases(self, tier, seed):
         import os
@@ -337,6 +345,8 @@ class C18(core.Check):
                     t.add('label-contains-mnemonic')
                 if 'label-placement' in ks and re.search(r'^\s*\w+:[ \t]+\S*.*\.(lp|nx)\b', src, re.M):
                     t.add('label-in-front-of-local-reference')
+                if re.search(r'^[^;\n]*["\'][^\n]*;[^\n]*["\']', src, re.M) and 'trailing-comments' in ks:
+                    t.add('quote-in-comment-after-quoted-statement')
                 if 'join-instructions' in ks:
                     for ln in src.split('\n'):
                         c_ = len(re.findall(r'(?i)(?<![\w.])(nop|q4|inr|nib|ldi|q12|tri|jmp|ldx|sel|mv2|lix|liy|bra)(?![\w.])', ln.split(';')[0]))
